@@ -35,7 +35,7 @@ LEMMAS = []
 LEMMA_AXIOMS = [a for _, a in P.reg.axioms]      # the lemma is pure arithmetic over the oracles: proved from the definitions of `stop` alone
 _ln, _lk, _lq, _lm = z3.Ints('sl_n sl_k sl_q sl_m')
 # the loop summary proved below determines the decision list as the Python contract states it (through `stop`); m stands for k-1.
-# (label, hypotheses over arbitrary n, k, m, goal): proved on every run; it is not used by any obligation
+# (label, hypotheses over arbitrary n, k, m, goal): proved on every run from the definitions of `stop` alone
 LEMMAS.append(('the-loop-summary-is-the-decision-list-of-the-Python-contract',
                [0 <= _lk, _lk <= L(HOOKS), _lm == _lk - 1,
                 z3.ForAll([_lq], z3.Implies(z3.And(0 <= _lq, _lq < _lm), z3.Not(P.decides(_ln, _lq)))),
@@ -43,9 +43,23 @@ LEMMAS.append(('the-loop-summary-is-the-decision-list-of-the-Python-contract',
                _lk == z3.If(stop(_ln) < L(HOOKS), stop(_ln) + 1, L(HOOKS))))
 
 
+# contrapositive of the defining axiom `stop-least`, proved on every run like the bridging lemma and then available as an axiom
+_cn, _cj = z3.Ints('sc_n sc_j')
+LEMMAS.append(('a-decider-bounds-the-first-decider', [0 <= _cj, P.decides(_cn, _cj)], stop(_cn) <= _cj))
+AXIOMS.append(z3.ForAll([_cn, _cj], z3.Implies(z3.And(0 <= _cj, P.decides(_cn, _cj)), stop(_cn) <= _cj),
+                        patterns=[z3.MultiPattern(stop(_cn), X(_cn + _cj)), z3.MultiPattern(stop(_cn), R(_cn + _cj))]))
+# the bridging lemma as a closed formula: available to every obligation of this module (its own proof uses LEMMA_AXIOMS only)
+_lbl, _hyps, _goal = LEMMAS[0]
+BRIDGE = z3.ForAll([_ln, _lk, _lm], z3.Implies(z3.And(*_hyps), _goal))
+AXIOMS.append(BRIDGE)
+
+
 def provides(c_or_heap_dict, implied_field, self, obj):
     """self is in the implied mapping of providedBy(obj)"""
     return z3.Select(z3.Select(c_or_heap_dict, z3.Select(implied_field, PB(obj))), self) != ABSENT
+
+
+raises_attribute_error = z3.Function('ext_raises_AttributeError', Int, B)      # the class of the exception an external call raises
 
 
 def log_call(st, kind, callee, a1, a2):
@@ -54,7 +68,8 @@ def log_call(st, kind, callee, a1, a2):
     st.heap.set('$log', Concat(log, Unit(ev(kind, callee, a1, a2))))
     bad = st.clone()
     bad.assume(X(n))
-    fail(bad, cfun.EXC_OTHER)
+    # an external call may raise anything, in particular AttributeError (which must not be mistaken for a missing __conform__)
+    fail(bad, z3.If(raises_attribute_error(n), cfun.EXC_ATTRIBUTE_ERROR, cfun.EXC_OTHER))
     st.assume(z3.Not(X(n)))
     st.assume(R(n) != C_NULL)
     return [(bad, vobj(C_NULL)), (st, vobj(R(n)))]
@@ -88,7 +103,15 @@ def _tuple_set(ex, st, vs):
 def _call_object(ex, st, vs):
     hook, args = vs[0].t, vs[1].t
     a = z3.Select(st.heap.get('$tuple'), args)
-    return log_call(st, K_HOOK, hook, a[0], a[1])
+    n = Length(st.heap.get('$log'))
+    n0 = Length(ex.entry_heap.get('$log'))
+    out = log_call(st, K_HOOK, hook, a[0], a[1])
+    # ground instance (n0, j = n - n0) of the lemma `a-decider-bounds-the-first-decider` (proved on every run): arithmetic
+    # triggers make z3 slow to find it by itself
+    j = n - n0
+    for s2, _ in out:
+        s2.assume(z3.Implies(z3.And(0 <= j, z3.Or(X(n), R(n) != NONE)), stop(n0) <= j))
+    return out
 
 
 def _list_size(ex, st, vs):
@@ -165,7 +188,20 @@ def _adapt_post(c):
         ('provided-returns-the-object-without-calling-anything', z3.Implies(z3.And(ok, prov(c)), z3.And(c.res == c.a.obj, now == log0, c.exc == C_NULL))),
         ('otherwise-the-hooks-are-called-in-list-order-until-one-decides', z3.Implies(z3.And(ok, z3.Not(prov(c))), body)),
         ('NULL-iff-an-exception-is-set', (c.res == C_NULL) == (c.exc != C_NULL)),
-    ]
+        # the same fact in the form of the Python contract (contracts/C14_adapt.py: adapt_post / adapt_raises / adapt_rpost)
+    ] + [('python-form:' + lbl, z3.Implies(z3.And(ok, z3.Not(prov(c))), f)) for lbl, f in _python_form(c)]
+
+
+def _python_form(c):
+    log0, now = c.h0('$log'), c.h('$log')
+    n0 = L(log0)
+    s = stop(n0)
+    n = L(HOOKS)
+    raises = z3.And(s < n, X(n0 + s))
+    k = z3.If(s < n, s + 1, n)
+    return [('an-exception-iff-the-deciding-hook-raises', (c.exc != C_NULL) == raises),
+            ('log-is-the-hook-calls-up-to-the-deciding-one', SeqEq(now, Concat(log0, hev(c.a.self, c.a.obj, k)))),
+            ('result-of-the-deciding-hook-or-None', z3.Implies(z3.Not(raises), c.res == z3.If(s < n, R(n0 + s), NONE)))]
 
 
 def _adapt_loop(c):
@@ -183,5 +219,140 @@ def _adapt_loop(c):
 
 
 ADAPT = CProc('IB__adapt__', [('self', OBJ), ('obj', OBJ)], result=OBJ, requires=_adapt_pre, ensures=_adapt_post,
-              modifies=['$log', '$tuple'], loops={'L0': Loop(_adapt_loop, modifies=['$log'])}, api=API, globals=GLOBALS)
+              modifies=['$log', '$tuple'], loops={'L0': Loop(_adapt_loop, modifies=['$log'])}, api=API, globals=GLOBALS,
+              hide=('otherwise-the-hooks-are-called-in-list-order-until-one-decides',))
 PROCS = [ADAPT]
+
+
+# ---------------------------------------------------------------------- IB__call__(self, args, kwargs): the decision list of the statement
+ARG_OBJ = z3.Function('call_argument_obj', Obj, Obj, Obj)
+ARG_ALT = z3.Function('call_argument_alternate', Obj, Obj, Obj)        # C_NULL: not given
+call_parse_fails = z3.Function('call_argument_parsing_fails', Obj, Obj, B)
+flag_in = z3.Function('dict_has__CALL_CUSTOM_ADAPT', Obj, B)
+build_fails = z3.Function('Py_BuildValue_fails', Int, B)
+_bv = [0]
+
+
+def _parse_call(ex, st, vs):
+    fmt = getattr(vs[2], 'lit', '')
+    outs = vs[4:]
+    if fmt.strip('"') != 'O|O' or len(outs) != 2 or any(not isinstance(o, cfun.VRef) for o in outs):
+        raise cfun.CUnsupported('IB__call__: argument format %r' % fmt)
+    a, k = vs[0].t, vs[1].t
+    bad = st.clone()
+    bad.assume(call_parse_fails(a, k))
+    fail(bad, cfun.EXC_TYPE_ERROR)
+    st.assume(z3.And(z3.Not(call_parse_fails(a, k)), ARG_OBJ(a, k) != C_NULL))
+    st.env[outs[0].ref] = vobj(ARG_OBJ(a, k))
+    st.env[outs[1].ref] = vobj(ARG_ALT(a, k))
+    return [(bad, vint(0)), (st, vint(1))]
+
+
+def _getattr_conform(ex, st, vs):
+    o, nm = vs[0].t, vs[1].t
+    if nm.get_id() != STR_CONFORM.get_id():
+        raise cfun.CUnsupported('PyObject_GetAttr of %s' % nm)
+    a = st.clone()
+    a.assume(z3.And(z3.Not(P.has_conform(o)), P.conform_attr_error(o)))
+    fail(a, cfun.EXC_ATTRIBUTE_ERROR)
+    b = st.clone()
+    b.assume(z3.And(z3.Not(P.has_conform(o)), z3.Not(P.conform_attr_error(o))))
+    fail(b, cfun.EXC_OTHER)
+    st.assume(z3.And(P.has_conform(o), P.conform_of(o) != C_NULL))
+    return [(a, vobj(C_NULL)), (b, vobj(C_NULL)), (st, vobj(P.conform_of(o)))]
+
+
+def _call_method(ex, st, vs):
+    recv, meth = vs[0].t, vs[1].t
+    if meth.get_id() == STR_CALL_CONFORM.get_id():
+        return log_call(st, K_CONFORM, vs[2].t, recv, NONE)          # self._call_conform(conform): conform(self)
+    if meth.get_id() == STR_ADAPT.get_id():
+        return log_call(st, K_CUSTOM, recv, vs[2].t, NONE)           # a custom __adapt__ (interfacemethod)
+    raise cfun.CUnsupported('method call %s' % meth)
+
+
+def _getitem_string(ex, st, vs):
+    key = getattr(vs[1], 'lit', '').strip('"')
+    if key != '_CALL_CUSTOM_ADAPT':
+        raise cfun.CUnsupported('PyDict_GetItemString(%r)' % key)
+    present = fresh('flag_value', Obj)
+    st.assume(present != C_NULL)
+    return [(st, vobj(z3.If(flag_in(vs[0].t), present, C_NULL)))]
+
+
+def _build_value(ex, st, vs):
+    _bv[0] += 1
+    n = _bv[0]
+    bad = st.clone()
+    bad.assume(build_fails(n))
+    fail(bad, cfun.EXC_OTHER)
+    st.assume(z3.Not(build_fails(n)))
+    r = fresh('could_not_adapt_args', Obj)
+    st.assume(r != C_NULL)
+    return [(bad, vobj(C_NULL)), (st, vobj(r))]
+
+
+def _err_set_object(ex, st, vs):
+    st.env['$exc'] = vs[0]
+    return [(st, vint(0))]
+
+
+CALL_API = dict(API)
+CALL_API.update({'PyArg_ParseTupleAndKeywords': _parse_call, 'PyObject_GetAttr': _getattr_conform, 'PyObject_CallMethodObjArgs': _call_method,
+                 'PyDict_GetItemString': _getitem_string, 'Py_BuildValue': _build_value, 'PyErr_SetObject': _err_set_object})
+
+
+def _call_view(c):
+    """the context of the Python contract: obj and alternate as parsed (no alternate given = the private marker)"""
+    from zivc.spec import Ctx as _Ctx
+    a, k = c.a.args, c.a.kwargs
+    args = {'self': V(OBJ, c.a.self), 'obj': V(OBJ, ARG_OBJ(a, k)), 'alternate': V(OBJ, z3.If(ARG_ALT(a, k) == C_NULL, P.MARKER, ARG_ALT(a, k)))}
+    v = _Ctx(args, c._heap, c._heap0, res=c.res)
+    v.exc, v.exc0 = c.exc, c.exc0
+    return v
+
+
+def _call_pre(c):
+    v = _call_view(c)
+    o = v.a.obj
+    decl = PB(o)
+    tpd = c.h('tp_dict')[c.h('ob_type')[c.a.self]]
+    return [('arguments-are-objects', z3.And(c.a.self != C_NULL, c.a.args != C_NULL)),
+            ('the-flag-marks-interfaces-with-a-custom-__adapt__', flag_in(tpd) == P.custom_adapt(c.a.self)),
+            ('providedBy-is-a-pure-query-answering-by-the-implied-mapping', z3.And(
+                z3.Not(pb_fails(o)), subtype(typeof(decl), SBCLS), c.h('_implied')[decl] != C_NULL,
+                P.provides(c.a.self, o) == provides(c.h('$dict'), c.h('_implied'), c.a.self, o))),
+            ('the-hook-list-holds-the-installed-hooks', c.h('$list')[HOOKLIST] == HOOKS),
+            ('a-new-tuple-is-empty', z3.ForAll([z3.Const('tp_t', Obj)], c.h('$tuple')[z3.Const('tp_t', Obj)] == Empty(SeqO))),
+            ('an-alternate-is-never-the-private-marker', ARG_ALT(c.a.args, c.a.kwargs) != P.MARKER)]
+
+
+def _call_post(c):
+    v = _call_view(c)
+    d = P.call_spec(v)
+    parsed = z3.Not(call_parse_fails(c.a.args, c.a.kwargs))
+    other = z3.Or(d['attr_other'], d['conform_raises'], z3.And(d['reaches_adapt'], d['adapt_raises']))
+    type_error = z3.And(d['reaches_adapt'], z3.Not(d['adapt_raises']), d['adapt_res'] == NONE, v.a.alternate == P.MARKER)
+    out = [('argument-errors-are-reported-before-anything-runs', z3.Implies(z3.Not(parsed), z3.And(
+        c.res == C_NULL, c.exc != C_NULL, c.h('$log') == c.h0('$log')))),
+           ('NULL-iff-an-exception-is-set', (c.res == C_NULL) == (c.exc != C_NULL))]
+    for lbl, f in P.call_ensures(v):
+        out.append((lbl, z3.Implies(z3.And(parsed, c.exc == C_NULL), f)))
+    out += [
+        ('an-exception-of-a-step-propagates-and-nothing-later-runs', z3.Implies(z3.And(parsed, other), z3.And(c.res == C_NULL, c.exc != C_NULL))),
+        ('nothing-ran-when-fetching-__conform__-failed', z3.Implies(z3.And(parsed, d['attr_other']), c.h('$log') == c.h0('$log'))),
+        ('TypeError-when-nothing-adapts-and-no-alternate-was-given', z3.Implies(z3.And(parsed, type_error), z3.And(
+            c.res == C_NULL, c.exc != C_NULL, SeqEq(c.h('$log'), d['adapt_log'])))),
+        ('no-exception-otherwise', z3.Implies(z3.And(parsed, z3.Not(other), z3.Not(type_error)), c.exc == C_NULL))]
+    return out
+
+
+def _call_adapt_cases(c):
+    """call-site case distinction for IB__adapt__: provided / not provided (its contract is a disjunction)"""
+    return [prov(c), z3.Not(prov(c))]
+
+
+ADAPT.split = _call_adapt_cases
+CALL = CProc('IB__call__', [('self', OBJ), ('args', OBJ), ('kwargs', OBJ)], result=OBJ, requires=_call_pre, ensures=_call_post,
+             modifies=['$log', '$tuple'], api=CALL_API, globals=GLOBALS, callees={'IB__adapt__': ADAPT})
+PROCS.append(CALL)
